@@ -429,4 +429,14 @@ def arc_side(repo: Repo) -> RuleRun:
 
 arc_side.rule_id = "C11.ARC-SIDE"
 
-RULES = [quad_map_rule, chop_coverage, chop_role, radial_convention, chain_source, mirror_pairing, trig_domain, fill_conformal, arc_side]
+def affine_kinds(repo: Repo) -> RuleRun:
+    """Axes and directions of the predefined shapes are differences of points: a position used as an axis builds the shape
+    correctly only when its axis line passes through the global origin."""
+    from ..affine import kinds_rule
+
+    return kinds_rule(repo, PROP, "C11.AFFINE-KINDS", ("construct.",), floor=10)
+
+
+affine_kinds.rule_id = "C11.AFFINE-KINDS"
+
+RULES = [quad_map_rule, chop_coverage, chop_role, radial_convention, chain_source, mirror_pairing, trig_domain, fill_conformal, arc_side, affine_kinds]
